@@ -35,7 +35,7 @@ DISABLE_PATTERNS_LC = ['# disable_doctest', '# Script', '# Unstable', '# failing
 BASE_KINDS = ['pass', 'fail_out', 'fail_exc', 'fail_last', 'all_skipped', 'req_unmet', 'partly', 'expected_exc', 'comment_only',
               'disabled', 'pass', 'fail_out', 'inline_skipped_after_directive', 'req_after_directive', 'fail_warn', 'pass_warn',
               'fail_directive_first', 'comment_then_skipped', 'skipped_then_comment', 'expected_exc_nomsg', 'expected_exc_qualified',
-              'expected_exc_syntax']
+              'expected_exc_syntax', 'pass_marker_word_comment']
 OPTION_KINDS = ['needs_ellipsis', 'needs_nw', 'needs_iw']
 MERGEABLE = ('pass', 'fail_out', 'fail_exc', 'fail_last', 'expected_exc')
 
@@ -96,6 +96,10 @@ def block_lines(kind, tid, ind, pattern=None):
               '{}Traceback (most recent call last):'.format(ind), '{}configparser.Error: vp {}'.format(ind, tid)]
     elif kind == 'expected_exc_syntax':
         L += [t, "{}>>> eval('1 +')".format(ind), '{}Traceback (most recent call last):'.format(ind), '{}SyntaxError: invalid syntax'.format(ind)]
+    elif kind == 'pass_marker_word_comment':
+        # comments that merely begin with a force-disable word, on lines other than the first: an ordinary doctest
+        L += [t, '{}>>> # unstable sorting would also do here'.format(ind), "{}>>> print('out {}')".format(ind, tid), '{}out {}'.format(ind, tid),
+              '{}>>> # scripts usually print more'.format(ind), '{}>>> # failing that, nothing happens'.format(ind)]
     elif kind == 'comment_only':
         L += ['{}>>> # nothing to run here'.format(ind)]
     elif kind == 'disabled':
@@ -119,7 +123,8 @@ def outcome_of(kind, options=()):
     if '+SKIP' in opts and kind != 'comment_only':
         # every statement is skipped from the start; a block -SKIP is not generated
         return 'skipped', False
-    if kind in ('pass', 'partly', 'expected_exc', 'pass_warn', 'expected_exc_nomsg', 'expected_exc_qualified', 'expected_exc_syntax'):
+    if kind in ('pass', 'partly', 'expected_exc', 'pass_warn', 'expected_exc_nomsg', 'expected_exc_qualified', 'expected_exc_syntax',
+                'pass_marker_word_comment'):
         return 'passed', True
     if kind in ('fail_out', 'fail_exc', 'fail_last', 'fail_warn'):
         return 'failed', True
